@@ -442,6 +442,23 @@ def layout_agreement(ctx):
             except NotAffine:
                 ok = False
             ctx.ob(ok, u, 'path-so-far slice takes the arguments of steps 0..k: %s' % norm(n), node=n)
+    # the S / A prelude of the interpreter looks at the first step in place: its op code is
+    # ops[offset], its argument ops[offset + 1], and "there is a first step" is bound > offset
+    u = m.unit
+    bound = m.loop.test.comparators[0].id if isinstance(m.loop.test, ast.Compare) and is_name(m.loop.test.comparators[0]) else None
+    for n in u.own_nodes():
+        if isinstance(n, ast.Compare) and len(n.ops) == 1 and m.loop not in ancestors(n):
+            left, right = n.left, n.comparators[0]
+            if isinstance(left, ast.Subscript) and is_name(left.value, m.ops_var) and isinstance(left.slice, ast.Constant) \
+                    and isinstance(left.slice.value, int):
+                strs = [right] if isinstance(right, ast.Constant) else (list(right.elts) if isinstance(right, ast.Tuple) else [])
+                if strs and all(isinstance(x, ast.Constant) and isinstance(x.value, str) for x in strs):
+                    ctx.ob(left.slice.value == O, u, 'the first step\'s op code is read at ops[%d]: %s' % (O, norm(n)), node=n)
+            if bound and is_name(left, bound) and isinstance(right, ast.Constant) and isinstance(right.value, int) \
+                    and isinstance(n.ops[0], (ast.Gt, ast.Lt, ast.GtE, ast.LtE)):
+                ok = isinstance(n.ops[0], (ast.Gt, ast.Lt)) and right.value == O or \
+                    isinstance(n.ops[0], (ast.GtE, ast.LtE)) and right.value in (O + 1, O - 1)
+                ctx.ob(ok, u, '"has a step" compares the bound with the root offset %d: %s' % (O, norm(n)), node=n)
     # (3) __len__ = (len(ops) - offset) // stride
     u = ctx.unit('core.Path.__len__')
     rets = [n for n in u.own_nodes() if isinstance(n, ast.Return)]
